@@ -230,28 +230,40 @@ def _close(a, b, tol=1e-7):
 
 
 def _positional(real, replacement):
-    """A stand-in is written against the real function's parameter ORDER; the real code may pass any of them by keyword (a refactoring
-    that switches a call site to keyword arguments must not change a verdict): arguments are bound to the real signature and the leading
-    ones handed over positionally, whichever way the caller spelled them."""
+    """A stand-in is written against the real function's signature; the real code may spell a call either way (a refactoring that
+    switches a call site to keyword arguments, or back, must not change a verdict).  The call is put into ONE canonical form before the
+    stand-in sees it: parameters without a default positionally, in order; parameters with a default by keyword."""
     import inspect
 
     try:
         sig = inspect.signature(real)
     except (TypeError, ValueError):
         return replacement
-    names = [p.name for p in sig.parameters.values() if p.kind in (p.POSITIONAL_ONLY, p.POSITIONAL_OR_KEYWORD)]
-    if any(p.kind is p.VAR_POSITIONAL for p in sig.parameters.values()):
+    params = list(sig.parameters.values())
+    if any(p.kind in (p.VAR_POSITIONAL, p.VAR_KEYWORD) for p in params):
         return replacement
 
     def call(I, *args, **kwargs):
-        if kwargs:
-            args = list(args)
-            for name in names[len(args):]:
-                if name in kwargs:
-                    args.append(kwargs.pop(name))
-                else:
-                    break
-        return replacement(I, *args, **kwargs)
+        try:
+            ba = sig.bind(*args, **kwargs)
+        except TypeError:
+            return replacement(I, *args, **kwargs)  # let the stand-in (or Python) complain about the real mistake
+        pos, kw, gap = [], {}, False
+        for p in params:
+            if p.name not in ba.arguments:
+                gap = True
+                continue
+            v = ba.arguments[p.name]
+            if p.kind is p.KEYWORD_ONLY or p.default is not p.empty or gap:
+                kw[p.name] = v
+            else:
+                pos.append(v)
+        try:
+            return replacement(I, *pos, **kw)
+        except TypeError as e:
+            if "unexpected keyword argument" not in str(e):
+                raise
+            return replacement(I, *args, **kwargs)  # a stand-in with its own parameter names: hand the call over as it was spelled
 
     return call
 
